@@ -88,7 +88,7 @@ theorem anyOfShape_image (ρ : String → FieldDecl) (hρ : RefsAreClasses ρ) (
     cases hdb : schemaToDecl ρ b <;> first | exact absurd hdb hb | simp [anyOfShape]
   | a :: b :: c :: r => simp [schemaToDeclL, anyOfShape]
 
-/-- the object case, given the result for the properties -/
+/-- the object case, given the result for the properties (nested: never the field-wrapper form) -/
 theorem obj_roundtrip (ρ : String → FieldDecl) (props : List (String × Schema))
     (defaults : List (String × PyVal)) (required : Option (List String)) (addl : Bool)
     (hi : objIssues (props.map (·.1)) (defaults.map (·.1)) required addl = [])
@@ -99,18 +99,10 @@ theorem obj_roundtrip (ρ : String → FieldDecl) (props : List (String × Schem
   | none => simp [objIssues] at hi
   | some req =>
     simp only [objIssues] at hi
-    obtain ⟨habc, _⟩ := append_nil_of_isEmpty hi
-    obtain ⟨hab, h3⟩ := append_nil_of_isEmpty habc
-    obtain ⟨_, h2⟩ := append_nil_of_isEmpty hab
+    obtain ⟨_, h2⟩ := append_nil_of_isEmpty hi
     have hdn := ite_nil (by simp) h2
-    have hcol := ite_nil' (by simp) h3
-    have hcol' : collapses (declRequired (props.map (·.1)) (defaults.map (·.1)) (some req))
-        (props.map (·.1)) addl = false := by
-      simpa using hcol
     simp only [schemaToDecl, toSchemaF, inlineOpts, structShape, names_toSchemaP,
-      names_schemaToDeclP, if_true]
-    simp only [hcol', Bool.false_eq_true, if_false, normReq, ih, names_toSchemaP,
-      names_schemaToDeclP]
+      names_schemaToDeclP, if_true, Bool.false_and, Bool.false_eq_true, if_false, normReq, ih]
     rw [canonReq_roundtrip _ _ _ hdn]
 
 mutual
@@ -162,7 +154,6 @@ theorem inverse_core (ρ : String → FieldDecl) (hρ : RefsAreClasses ρ) :
   | .notS ss, h => by
     simp only [issues] at h
     simp [schemaToDecl, toSchemaF, normReq, inverse_coreL ρ hρ ss h]
-  | .retyped s, h => by simp [issues] at h
   | .unsupported w, h => by simp [issues] at h
 theorem inverse_coreL (ρ : String → FieldDecl) (hρ : RefsAreClasses ρ) :
     ∀ ss : List Schema, issuesL ss = [] →
@@ -182,12 +173,12 @@ theorem inverse_coreP (ρ : String → FieldDecl) (hρ : RefsAreClasses ρ) :
     simp [schemaToDeclP, toSchemaP, normReqP, inverse_core ρ hρ s h1, inverse_coreP ρ hρ ps h2]
 end
 
-/-- the generated *class* (top level): `structure_to_schema (exec (schema_to_struct_code s))` -/
-theorem class_roundtrip (ρ : String → FieldDecl) (hρ : RefsAreClasses ρ) (name : String)
+/-- a definition: `definitions[name]` as `_map_class_reference` stores it -/
+theorem def_roundtrip (ρ : String → FieldDecl) (hρ : RefsAreClasses ρ) (name : String)
     (props : List (String × Schema)) (defaults : List (String × PyVal))
     (required : Option (List String)) (addl : Bool)
     (h : issues (.obj props defaults required addl) = []) :
-    normReq (toSchemaClass (schemaToClass ρ name (.obj props defaults required addl)))
+    normReq (toSchemaDef (schemaToClass ρ name (.obj props defaults required addl)))
       = normReq (.obj props defaults required addl) := by
   simp only [issues] at h
   obtain ⟨hi, hp⟩ := append_nil_of_isEmpty h
@@ -196,16 +187,37 @@ theorem class_roundtrip (ρ : String → FieldDecl) (hρ : RefsAreClasses ρ) (n
   | none => simp [objIssues] at hi
   | some req =>
     simp only [objIssues] at hi
-    obtain ⟨habc, _⟩ := append_nil_of_isEmpty hi
-    obtain ⟨hab, h3⟩ := append_nil_of_isEmpty habc
-    obtain ⟨_, h2⟩ := append_nil_of_isEmpty hab
+    obtain ⟨_, h2⟩ := append_nil_of_isEmpty hi
     have hdn := ite_nil (by simp) h2
-    have hcol := ite_nil' (by simp) h3
+    simp only [schemaToClass, toSchemaDef, structShape, names_toSchemaP, names_schemaToDeclP,
+      Bool.false_and, Bool.false_eq_true, if_false, normReq, ih]
+    rw [canonReq_roundtrip _ _ _ hdn]
+
+/-- the generated top-level *class*: `structure_to_schema (exec (schema_to_struct_code s))`, where
+    the field-wrapper form applies -/
+theorem class_roundtrip (ρ : String → FieldDecl) (hρ : RefsAreClasses ρ) (name : String)
+    (props : List (String × Schema)) (defaults : List (String × PyVal))
+    (required : Option (List String)) (addl : Bool)
+    (h : topIssues (.obj props defaults required addl) = []) :
+    normReq (toSchemaClass (schemaToClass ρ name (.obj props defaults required addl)))
+      = normReq (.obj props defaults required addl) := by
+  simp only [topIssues] at h
+  obtain ⟨h3, h⟩ := append_nil_of_isEmpty h
+  have hcol := ite_nil' (by simp) h3
+  simp only [issues] at h
+  obtain ⟨hi, hp⟩ := append_nil_of_isEmpty h
+  have ih := inverse_coreP ρ hρ props hp
+  cases required with
+  | none => simp [objIssues] at hi
+  | some req =>
+    simp only [objIssues] at hi
+    obtain ⟨_, h2⟩ := append_nil_of_isEmpty hi
+    have hdn := ite_nil (by simp) h2
     have hcol' : collapses (declRequired (props.map (·.1)) (defaults.map (·.1)) (some req))
         (props.map (·.1)) addl = false := by
       simpa using hcol
     simp only [schemaToClass, toSchemaClass, structShape, names_toSchemaP, names_schemaToDeclP]
-    simp only [hcol', Bool.false_eq_true, if_false, normReq, ih, names_toSchemaP,
+    simp only [hcol', Bool.true_and, Bool.false_eq_true, if_false, normReq, ih, names_toSchemaP,
       names_schemaToDeclP]
     rw [canonReq_roundtrip _ _ _ hdn]
 
